@@ -64,10 +64,10 @@ func scenarios() []scen {
 		{"no-subnets", "no map at all: the scanner's channel has capacity 0 and only the closer runs", soa + ordinary(3), [2]int{2, 3}},
 		{"one-map-2", "one map, 2 subnets: a single short chunk", subnets("m1", 0, 2) + ordinary(1), [2]int{2, 3}},
 		{"one-map-48", "one map, 48 subnets: 99 range points, one chunk that is not full", subnets("m1", 0, 48), [2]int{1, 2}},
-		{"one-map-48+adjacent", "one map, 48 subnets and one adjacent to the last: exactly 100 range points, one full chunk and nothing after it", subnets("m1", 0, 48) + "%cc,10.0.95.0/24,m1\n", [2]int{1, 2}},
+		{"one-map-48+last", "one map, 48 subnets and the last /24 of the IPv4 space (its end coincides with the end of the implicit IPv4 range): exactly 100 range points, one full chunk and nothing after it", subnets("m1", 0, 48) + "%cc,255.255.255.0/24,m1\n", [2]int{1, 2}},
 		{"one-map-49", "one map, 49 subnets: 101 range points, a full chunk and a chunk of one line", subnets("m1", 0, 49), [2]int{1, 2}},
 		{"one-map-60", "one map, 60 subnets: 123 range points", soa + subnets("m1", 0, 60) + ordinary(2), [2]int{1, 2}},
-		{"one-map-120", "one map, 120 subnets: 243 range points, three chunks through a channel of capacity 1 (the producer waits for the consumer)", subnets("m1", 0, 120), [2]int{1, 1}},
+		{"one-map-120", "one map, 120 subnets: 243 range points, three chunks through a channel of capacity 1 (the producer waits for the consumer)", subnets("m1", 0, 120), [2]int{0, 1}},
 		{"two-maps-2", "two maps of 2 subnets each", subnets("m1", 0, 2) + subnets("m2", 0, 2) + ordinary(1), [2]int{0, 0}},
 		{"three-maps-60", "three maps of 60 subnets each: two chunks per map through a channel of capacity 3", subnets("m1", 0, 60) + subnets("m2", 0, 60) + subnets("m3", 0, 60), [2]int{0, 0}},
 		{"long-pass-through", "40 ordinary lines and two SOA lines (output well beyond the reader's 512-byte buffer) around one map of 60 subnets", soa + ordinary(20) + subnets("m1", 0, 60) + "Zexample.org,ns.example.org,adm.example.org,42\n" + ordinary(20), [2]int{1, 1}},
@@ -184,7 +184,7 @@ func main() {
 				for _, b := range bad {
 					fp := "sched/" + sc.name + "/" + kindOf(b)
 					if !r.Has(fp) {
-						r.Violate(fp, fmt.Sprintf("scenario %q (%s): %s (choices %v)", sc.name, sc.why, b, res.Choices),
+						r.Violate(fp, fmt.Sprintf("scenario %q (%s): %s (%s)", sc.name, sc.why, b, choicesText(res.Choices)),
 							map[string]interface{}{"part": "schedules", "file": sc.text, "choices": res.Choices, "problem": b, "preprocessed": out.String()})
 					}
 				}
@@ -197,8 +197,11 @@ func main() {
 		r.Add("schedule_pruned_subtrees", st.Pruned)
 		r.Add("schedule_distinct_outcomes", int64(len(outcomes)))
 		r.Add("schedule_scenarios", 1)
-		if points > 100 {
+		if points > 100 && maps == 1 || points > 300 {
 			r.Add("schedule_scenarios_with_a_map_of_more_than_100_range_points", 1)
+		}
+		if points == 100 && maps == 1 {
+			r.Add("schedule_scenarios_with_a_map_of_exactly_100_range_points", 1)
 		}
 		if st.Capped || st.BoundCompleted < bound {
 			r.Exhaustive = false
@@ -207,6 +210,20 @@ func main() {
 		r.Sample(map[string]interface{}{"part": "schedules", "scenario": sc.name, "range_point_lines": points, "maps": maps, "bound": bound, "executions": st.Execs})
 	}
 	r.Finish()
+}
+
+// choicesText names a schedule by its deviations from the default one.
+func choicesText(ch []int) string {
+	var dev []string
+	for i, c := range ch {
+		if c != 0 {
+			dev = append(dev, fmt.Sprintf("%d:%d", i, c))
+		}
+	}
+	if len(dev) == 0 {
+		return fmt.Sprintf("the default schedule, %d choice points", len(ch))
+	}
+	return fmt.Sprintf("schedule with %d choice points, non-default choices point:alternative %s", len(ch), strings.Join(dev, " "))
 }
 
 func kindOf(problem string) string {
